@@ -18,7 +18,7 @@ func init() {
 		Title: "Directive text means the same however it is written; nothing is silently altered",
 		Explanation: "Decides the normalisation tables, error discipline and scanner guards of the configuration parser, not the round-trip law over the grammar: R1 case folding: directive names are lower-cased before the lookup and every key of the directive table is lower-case; the action and transformation registries apply the same fold when registering and when looking up; action keys are trimmed and folded, action values trimmed and then unquoted, in that order; " +
 			"R2 nothing silently altered: in the compile-time call graph (seclang, rule construction, action Init, operator factories) no error result is dropped outside a reasoned allowlist, an unknown ctl collection or variable name is an error, an unclosed quote in an action list is an error, the remainder handed back by a cutting scanner is never discarded, a number/enum parsed from directive or action text is applied or refused on every successful path (never only range-tested and dropped), and a ctl regex key is compiled as written (no case folding); " +
-			"R3 look-ahead reads of the scanners are length-guarded (A9 shapes); R4 scanner and parser state: the per-target flags of the target scanner (count, negation) are cleared after each target; the parser's position (file, directory, root, line) is copied into the shared directive options by evaluateLine before every directive call (a nested Include overwrites them); inside a regex key a backslash toggles the escape state (so an escaped backslash does not escape the closing slash), a continuation line is joined without being evaluated, comment and blank lines are skipped before anything else, and an open backtick block is an error.",
+			"R3 look-ahead reads of the scanners are length-guarded (A9 shapes); R4 scanner and parser state: the per-target flags of the target scanner (count, negation) are cleared after each target; the parser's position (file, directory, root, line) is copied into the shared directive options by evaluateLine before every directive call (a nested Include overwrites them); inside a regex key a backslash toggles the escape state (so an escaped backslash does not escape the closing slash), a continuation line is joined without being evaluated, comment and blank lines are skipped before anything else, and an open backtick block is an error. R2 also: a strings.Split result that is only indexed with constants has its length validated (otherwise text after the next separator is dropped).",
 		NotDecided: []string{
 			"the round-trip law (render then parse) over the whole grammar and the equivalence of renderings",
 			"line assembly and target/action scanners beyond guards, error discipline and the listed state facts",
@@ -213,6 +213,71 @@ func runC16(c *an.Ctx) {
 		})
 	}
 	c.MinCount("R2", "calls of cutting scanners", nCut, 1)
+
+	// the same loss in another spelling: strings.Split(text, sep) whose result is only ever indexed with constants
+	// (kv[0], kv[1]) keeps the text up to the n-th separator and drops the rest, unless the number of pieces was
+	// validated (len(parts) == n).  Configuration text is cut with Cut/SplitN(..., n) or walked completely.
+	{
+		nSplit := 0
+		seenS := map[string]int{}
+		for _, fn := range c.P.ModFuncs {
+			rp := relPkg(fn)
+			if rp != "internal/actions" && rp != "internal/seclang" && rp != pkgWAF && rp != "internal/operators" && rp != "types" {
+				continue
+			}
+			an.Instrs(fn, func(in ssa.Instruction) {
+				call, ok := in.(*ssa.Call)
+				if !ok || call.Call.StaticCallee() == nil || call.Call.StaticCallee().Pkg == nil {
+					return
+				}
+				sc := call.Call.StaticCallee()
+				if sc.Pkg.Pkg.Path() != "strings" || (sc.Name() != "Split" && sc.Name() != "SplitAfter" && sc.Name() != "Fields") {
+					return
+				}
+				nSplit++
+				maxIdx, onlyConst := int64(-1), len(*call.Referrers()) > 0
+				var at ssa.Instruction
+				for _, r := range *call.Referrers() {
+					switch x := r.(type) {
+					case *ssa.IndexAddr:
+						if k, ok := an.ConstInt(x.Index); ok {
+							if k > maxIdx {
+								maxIdx, at = k, x
+							}
+						} else {
+							onlyConst = false
+						}
+					case *ssa.Call:
+						if !an.IsBuiltinCall(x, "len") {
+							onlyConst = false
+						}
+					case *ssa.DebugRef:
+					default:
+						onlyConst = false
+					}
+				}
+				if !onlyConst || maxIdx < 0 {
+					return
+				}
+				k := "pieces of " + sc.Name() + " in " + an.RelName(fn) + " are all used"
+				seenS[k]++
+				key := k
+				if seenS[k] > 1 {
+					key += fmt.Sprintf("#%d", seenS[k])
+				}
+				lenE := "len(" + an.Expr(call) + ")"
+				exact := false
+				for _, a := range an.FactsAt(at) {
+					if a.L == lenE && a.Op == "==" {
+						exact = true
+					}
+				}
+				c.Check(exact, "R2", key, call.Pos(), "the number of pieces is validated",
+					fmt.Sprintf("the result of strings.%s is only indexed with constants (up to [%d]) and its length is never required to be exact: text after the next separator is silently dropped (setvar:tx.u=/home?tab=2 would store /home?tab); cut at the first separator instead", sc.Name(), maxIdx))
+			})
+		}
+		c.OkTrivial("R2", "strings.Split results in configuration code are walked or counted", token.NoPos, fmt.Sprintf("%d calls", nSplit))
+	}
 	c16ParsedIsApplied(c)
 	// one continuation mark is one backslash: text is cut with TrimSuffix/TrimPrefix (an affix), never with a
 	// Trim/TrimRight/TrimLeft whose cut set contains the backslash or a quote, which strips *every* such byte at
